@@ -9,7 +9,7 @@ PROP = 'C09'
 LEVEL = 'exploration'
 RULE = ('HIST histories on Joliet levels 1-3 with divergent trees (Joliet-only and ISO-only entries, different nesting), Unicode names '
         '(ASCII, Latin-1, BMP, non-BMP; 1..64 characters), edits, removals, restarts; every written image is decoded from its supplementary '
-        'volume descriptor by isosim/dec_iso.py with UCS-2BE names; a final doomed call with a name of more than 64 characters must be refused; '
+        'volume descriptor by isosim/dec_iso.py with UCS-2BE names; a final doomed call with a name of more than 64 characters (or of at most 64 code points that need more than 64 UCS-2 units) must be refused; '
         'non-trivial: >= 3 accepted edits, >= 1 write, >= 1 Joliet entry; distinct = model shape fingerprints')
 BUDGET = {'quick': 40, 'thorough': 900}
 PROBES = ['joliet_trees_decoded', 'joliet_only_entry', 'iso_only_entry', 'non_bmp_name', 'name_64_chars', 'shared_extent_checked',
@@ -29,6 +29,12 @@ def post_gen(plan, w, model):
     n = r.choice((65, 66, 70, 100, 128, 200))
     pool = G.RRCHARS.replace('.', '') + (G.UNI_BMP if r.random() < 0.4 else '')
     name = ''.join(r.choice(pool) for _ in range(n))
+    if r.random() < 0.35:
+        # not more than 64 code points, but more than 64 UCS-2 units (characters beyond the BMP take two)
+        k = r.choice((33, 34, 40, 50, 64))
+        name = ''.join(r.choice(G.UNI_ASTRAL) for _ in range(k))
+        if r.random() < 0.5:
+            name = name[:k - 2] + r.choice(('ab', '.x', '中a'))
     parent = r.choice(model.dirs('joliet'))
     path = M.join(parent, name)
     if r.random() < 0.5:
